@@ -181,7 +181,10 @@ def documents(ctx, n):
     # non-BMP, the byte-order mark inside a string), as JSON with and without \u escapes
     HAND = [{'s': 'ab\u0000cd', 'k\u0000a': 1, 'k\u0000b': 2, 'l': ['\u0000', 'x\u0000', '']},
             {'s': 'tab\there', 'n': 'line\nbreak', 'c': '\u0001\u001f\u007f', 'k\ty': {'\u0001': [1]}},
-            {'s': 'five \U0001f600', '\U0001f600': '\ufeffbom', 'e': '\u00e9\u0301', 'q': '"quoted" \\ back'}]
+            {'s': 'five \U0001f600', '\U0001f600': '\ufeffbom', 'e': '\u00e9\u0301', 'q': '"quoted" \\ back'},
+            # integers that are not exact doubles, at the edges of i64, next to floats of the same magnitude
+            {'big': 9007199254740993, 'neg': -9007199254740993, 'max': 9223372036854775807, 'min': -9223372036854775808,
+             'l': [4611686018427387905, 1e18, 123456789012345678], 'f': 9007199254740992.0}]
     for k in range(n + len(HAND)):
         hand = k >= n
         doc = HAND[k - n] if hand else (gen.gen_doc(rng) if rng.random() < 0.7 else gen.gen_cfn(rng))
@@ -239,6 +242,38 @@ def documents(ctx, n):
     ctx.coverage['evaluations'] += len(ops) + len(eops)
     ctx.sample({'doc': lits[0], 'block_yaml': [t for (k, nm, ld, t) in meta if k == 0 and nm == 'block-yaml'][0][:500]})
     return cmp_n + nl
+
+
+def core_tags(ctx):
+    """explicit core-schema tags on scalars whose text is of another class (`!!float 3`, `!!int "12"`, `!!str 5`) and on text
+    the tag cannot read (`!!int 1.5`, `!!bool 5`): the three loaders give the same typed value, or all reject the document"""
+    cases = ['!!float 3', '!!float "7"', '!!float 2.5', '!!float -0', '!!int "12"', '!!int 12', '!!int -7', '!!str 5', '!!str true', '!!str null', '!!str 1.5',
+             '!!bool "true"', '!!bool false', '!!null ""', '!!null null', '!!int 1.5', '!!int abc', '!!float abc', '!!bool 5', '!!int 1e3', '!!float 1e3',
+             '!!int 9223372036854775808', '!!float .5', '!!seq [1]', '!!map {a: 1}']
+    ops, meta = [], []
+    for c in cases:
+        for shape in ('n: %s\n', 'l: [%s, 1]\n'):
+            for ld in ('cli', 'test', 'lib'):
+                ops.append({'op': 'doc', 'data': shape % c, 'loader': ld}); meta.append((c, shape, ld))
+    res = impl.run_ops_parallel(ops, ctx.wd, 'c11coretags')
+    by = {}
+    for (c, shape, ld), r in zip(meta, res):
+        rr = r.get('res')
+        by.setdefault((c, shape), {})[ld] = ('Ok', json.dumps(strip_dump(rr[1]), sort_keys=True)) if rr and rr[0] == 'Ok' else ('Err',)
+    n = 0
+    for (c, shape), d in by.items():
+        n += 1
+        if len(set(d.values())) != 1:
+            info = {'class': 'core-tag', 'text': shape % c, 'loaded': {k: str(v)[:200] for k, v in d.items()}}
+            # integers beyond i64 and the YAML-only spellings are the recorded plain-scalar finding
+            if re.search(r'9223372036854775808|1e3|\.5|-0', c):
+                info['class'] = 'plain-scalar-outside-json'
+            if c in ('!!null ""', '!!bool 5'):
+                info['class'] = 'core-tag-oddity'      # recorded finding
+            ctx.failing('the loaders disagree on an explicitly tagged scalar %r: %s' % (c, {k: str(v)[:80] for k, v in d.items()}), info, found=True)
+    ctx.coverage['core_tag_cases'] = n
+    ctx.coverage['evaluations'] += len(ops)
+    return n
 
 
 def tags(ctx):
@@ -326,7 +361,7 @@ def run(ctx):
     ctx.build()
     pr = ctx.proofs('C11')
     thorough = ctx.tier == 'thorough'
-    n = classify_universe(ctx) + loaders_on_scalars(ctx) + documents(ctx, 400 if thorough else 60) + tags(ctx) + rejects(ctx)
+    n = classify_universe(ctx) + loaders_on_scalars(ctx) + documents(ctx, 400 if thorough else 60) + tags(ctx) + core_tags(ctx) + rejects(ctx)
     ctx.coverage['distinct_nontrivial'] = n
     ctx.coverage['rule'] = ('a universe of %d scalar spellings (plain / single / double quoted) through every loader; generated documents in 5 serialisations x 3 loaders; every tag of the '
                             'regenerated tables x {scalar, sequence, nested} x 3 loaders, short vs long form; 13 malformed or non-string-key texts' % len(PLAIN_UNIVERSE))
